@@ -18,6 +18,7 @@ from qce_circuit.structure.intrf_circuit_operation import (
     MultiRelationType,
     ChannelIdentifier,
     ICircuitOperation,
+    invalidate_start_time_cache,
 )
 from qce_circuit.structure.graph_traversal.intrf_graph_structure import (
     IEndpoint,
@@ -126,6 +127,8 @@ class CircuitGraphBranch(GraphBranch[OperationGraphNode]):
     @staticmethod
     def add_to_graph(graph: 'CircuitGraphBranch', operation: ICircuitOperation) -> 'CircuitGraphBranch':
         """:return: Updated graph. Adds operation to graph."""
+        # Structure changes, memoized start times are no longer valid
+        invalidate_start_time_cache()
         # Data allocation
         node: OperationGraphNode = OperationGraphNode(operation=operation)
         leaf_node: Optional[OperationGraphNode] = graph.get_leaf_at_any(channel_identifiers=operation.channel_identifiers)
@@ -300,8 +303,9 @@ class CircuitCompositeOperation(ICircuitCompositeOperation):
         result: List[ICircuitOperation] = []
         for node in self._circuit_graph.get_node_iterator():
             # Apply relation-link head (Important for nested composite-operations)
-            if not node.operation.has_relation:
+            if not node.operation.has_relation and node.operation.relation_link is not self.relation_link:
                 node.operation.relation_link = self.relation_link
+                invalidate_start_time_cache()
             # Extend decomposed operation list
             result.extend(node.operation.decomposed_operations())
         return result
